@@ -25,6 +25,8 @@ func init() {
 	Registry["C10"] = C10
 	Registry["C11"] = C11
 	Registry["C16"] = C16
+	Registry["C03"] = C03
+	Registry["C09"] = C09
 }
 
 func init() { Registry["C13"] = C13 }
